@@ -229,3 +229,38 @@ func H_C13_initdefaults() {
 		verif.Assert(t.Z == u, "C13/mentioned field set")
 	}
 }
+
+// H_C13_two_fields: the configuration mentions several fields; one of the later ones may fail
+// (symbolic value): then the earlier, successfully converted ones must be rolled back too.
+func H_C13_two_fields() {
+	pre := c13T{N: verif.Uint64("pre.n"), S: "pre", I8: 5, L: symList("pre.l", 2), M: map[string]uint64{"k": verif.Uint64("pre.m.k")},
+		In: c13Inner{X: verif.Uint64("pre.in.x"), Y: 3}, Ign: verif.Uint64("pre.ign"), hidden: verif.Uint64("pre.hidden"), Other: verif.Uint64("pre.other")}
+	t := pre
+	t.L = append([]uint64{}, pre.L...)
+	t.M = map[string]uint64{"k": pre.M["k"]}
+	u := verif.Uint64("cfg.u")
+	i := verif.Int64("cfg.i")
+	cfg := map[string]interface{}{"n": u, "s": "new", "l": []interface{}{u}, "other": u}
+	// the possibly failing setting sits at the start, in the middle or at the end of the struct
+	switch verif.Choice("failing", 3) {
+	case 0:
+		cfg["i8"] = i
+	case 1:
+		cfg["in"] = map[string]interface{}{"x": u, "y": i}
+	case 2:
+		cfg["p"] = map[string]interface{}{"x": u, "y": i}
+	}
+	c, err := ucfg.NewFrom(cfg)
+	verif.Assume(err == nil)
+	uerr := c.Unpack(&t)
+	if uerr != nil {
+		verif.Reach("later field failed")
+		verif.Assert(t.sameAs(&pre), "C13/two fields: after a failure the earlier fields are rolled back as well")
+		verif.Assert(verif.And(t.N == pre.N, t.Other == pre.Other), "C13/two fields: scalar written before the failure is restored")
+	} else {
+		verif.Reach("all fields converted")
+		verif.Assert(verif.And(verif.And(t.N == u, t.S == "new"), verif.And(t.Other == u, len(t.L) == 2)), "C13/two fields: every mentioned field set")
+		verif.Assert(verif.And(t.L[0] == u, t.L[1] == pre.L[1]), "C13/two fields: list merged index-wise by default")
+		verif.Assert(verif.And(t.Ign == pre.Ign, t.hidden == pre.hidden), "C13/two fields: ignored and unexported fields untouched")
+	}
+}
